@@ -69,8 +69,8 @@ CHECKS = {
                   probes=["reqname_reply_1", "reqname_reply_2", "reqname_reply_3", "reqname_reply_4", "relname_reply_1", "relname_reply_2", "relname_reply_3",
                           "reqname_reply_1_replace", "replaced_owner_requeued", "replaced_owner_dropped", "waiter_updates_flags", "waiter_dropped_by_dnq",
                           "owner_disconnect_two_waiters", "waiter_removed", "limit_names_hit", "waiter_replaces_owner"]),
-    "C05": simbus("C05", RULE % "C05 (unicast to unique / well-known / missing names and the bus, concurrent ownership changes, closes, stalled readers, replies)",
-                  probes=["dest_missing", "send_to_self", "eavesdrop_copy", "owner_handover_to_waiter", "noreply_on_disconnect"]),
+    "C05": simbus("C05", RULE % "C05 (unicast to unique / well-known / missing names and the bus, concurrent ownership changes, closes, stalled readers, replies; in 22% of the plans a small max_outgoing_bytes with readers stalling behind small socket buffers)",
+                  probes=["dest_missing", "send_to_self", "eavesdrop_copy", "owner_handover_to_waiter", "noreply_on_disconnect", "unicast_refused_queue_full", "dropped_recipient_queue_full"]),
     "C07": simbus("C07", RULE % "C07 (AddMatch/RemoveMatch with grammar-generated and deliberately defective rule strings in several quoting spellings, broadcasts built from the same vocabulary, disconnects, rule limit)",
                   probes=["addmatch_ok", "addmatch_invalid", "rmmatch_ok", "rmmatch_notfound", "broadcast_copy", "limit_rules_hit"], safety_prop="C07"),
     "C13": simbus("C13", RULE % "C13 (random subset of small limits: connections, per-user, incomplete, names, match rules, pending replies, message size; several simulated users; fill / overflow / release / refill)",
